@@ -1,4 +1,647 @@
 import PyaModel.Spec.CacheSpec
 import PyaModel.Generated.SetSites
+/-!
+# Proofs/C10 — helper lemmas for Props/C10.lean
+
+* the scan/registry obligation `sites_registered`;
+* permutation lemmas for the order-insensitive site kinds (`any`, set building, lookup maps,
+  singletons, `sorted`, first failure / first success with at most one hit, worklist closure);
+* memo tables: invariant and transparency;
+* the protocol check: `check_spec` (induction on the fuel, nested inductions over members and
+  slots): from a state whose cache is valid and whose assumptions have larger rank, the check
+  returns the structural answer `sem`, keeps the cache valid and restores the stack.
+-/
 namespace Pya.C10
+set_option linter.unusedSimpArgs false
+
+/-- Every set-iteration site the AST scan finds in the live tree has a modelled kind. -/
+theorem sites_registered_proof : sitesRegistered Gen.scannedSites = true := by decide
+
+
+/-! ## Order sites -/
+
+theorem perm_length_le_one {α : Type} {l₁ l₂ : List α} (h : l₁.Perm l₂) (hl : l₂.length ≤ 1) : l₁ = l₂ := by
+  have hlen := h.length_eq
+  match l₁, l₂, hlen, hl with
+  | [], [], _, _ => rfl
+  | [a], [b], _, _ =>
+    have := h.mem_iff (a := a)
+    simp at this
+    rw [this]
+  | _ :: _ :: _, _, hlen, hl => simp at hlen; omega
+  | [], _ :: _, hlen, _ => simp at hlen
+  | [_], [], hlen, _ => simp at hlen
+  | [_], _ :: _ :: _, _, hl => simp at hl
+
+/-- Two iteration orders of a set with fewer than two elements are equal. -/
+theorem orders_eq_of_small {α : Type} (elems o₁ o₂ : List α) (hd : D10_twoOrMore elems = false)
+    (h₁ : o₁.Perm elems) (h₂ : o₂.Perm elems) : o₁ = o₂ := by
+  have hl : elems.length ≤ 1 := by simp [D10_twoOrMore] at hd; omega
+  rw [perm_length_le_one h₁ hl, perm_length_le_one h₂ hl]
+
+theorem any_perm {α : Type} (p : α → Bool) {o₁ o₂ : List α} (h : o₁.Perm o₂) : o₁.any p = o₂.any p := by
+  induction h with
+  | nil => rfl
+  | cons x _ ih => simp [ih]
+  | swap x y l => simp [Bool.or_left_comm]
+  | trans _ _ ih₁ ih₂ => rw [ih₁, ih₂]
+
+theorem all_perm {α : Type} (p : α → Bool) {o₁ o₂ : List α} (h : o₁.Perm o₂) : o₁.all p = o₂.all p := by
+  induction h with
+  | nil => rfl
+  | cons x _ ih => simp [ih]
+  | swap x y l => simp [Bool.and_left_comm]
+  | trans _ _ ih₁ ih₂ => rw [ih₁, ih₂]
+
+theorem lookup_map_self {κ ν : Type} [BEq κ] [LawfulBEq κ] (f : κ → ν) (l : List κ) (k : κ) :
+    (l.map fun k => (k, f k)).lookup k = if k ∈ l then some (f k) else none := by
+  induction l with
+  | nil => simp
+  | cons x l ih =>
+    by_cases hk : k = x
+    · subst hk; simp [List.lookup]
+    · have : (k == x) = false := by simpa using hk
+      simp [List.lookup, this, ih, hk]
+
+theorem mem_dedup {α : Type} [BEq α] [LawfulBEq α] (l : List α) (x : α) : x ∈ dedup l ↔ x ∈ l := by
+  induction l with
+  | nil => simp [dedup]
+  | cons a l ih =>
+    simp only [dedup, List.mem_cons, List.mem_filter, ih]
+    by_cases h : x = a
+    · simp [h]
+    · simp [h]
+
+theorem insSorted_comm (a b : Nat) (l : List Nat) :
+    insSorted a (insSorted b l) = insSorted b (insSorted a l) := by
+  induction l with
+  | nil =>
+    simp only [insSorted]
+    by_cases h1 : a ≤ b <;> by_cases h2 : b ≤ a <;> simp [h1, h2, insSorted]
+    · have : a = b := by omega
+      subst this; simp
+    · omega
+  | cons c l ih =>
+    simp only [insSorted]
+    by_cases h1 : a ≤ c <;> by_cases h2 : b ≤ c <;> simp only [h1, h2, if_true, if_false, insSorted]
+    · by_cases h3 : a ≤ b <;> by_cases h4 : b ≤ a <;> simp [h3, h4, h1, h2]
+      · have : a = b := by omega
+        subst this; simp
+      · omega
+    · have h3 : a ≤ b := by omega
+      have h4 : ¬ b ≤ a := by omega
+      simp [h3, h4, h1]
+    · have h3 : b ≤ a := by omega
+      have h4 : ¬ a ≤ b := by omega
+      simp [h3, h4, h2]
+    · rw [ih]
+
+theorem isort_perm {o₁ o₂ : List Nat} (h : o₁.Perm o₂) : isort o₁ = isort o₂ := by
+  induction h with
+  | nil => rfl
+  | cons x _ ih => simp [isort, ih]
+  | swap x y l => simp [isort, insSorted_comm]
+  | trans _ _ ih₁ ih₂ => rw [ih₁, ih₂]
+
+theorem findSome?_filter {α β : Type} (f : α → Option β) (l : List α) :
+    l.findSome? f = (l.filter fun x => (f x).isSome).findSome? f := by
+  induction l with
+  | nil => rfl
+  | cons x l ih =>
+    cases hx : f x with
+    | none => simp [List.findSome?, List.filter, hx, ih]
+    | some y => simp [List.findSome?, List.filter, hx]
+
+theorem findSome?_isSome_eq_any {α β : Type} (f : α → Option β) (l : List α) :
+    (l.findSome? f).isSome = l.any fun x => (f x).isSome := by
+  induction l with
+  | nil => rfl
+  | cons x l ih =>
+    cases hx : f x with
+    | none => simp [List.findSome?, hx, ih]
+    | some y => simp [List.findSome?, hx]
+
+/-- `findSome?` over two orders of a set in which at most one element succeeds. -/
+theorem findSome?_perm_of_le_one {α β : Type} (f : α → Option β) (elems o₁ o₂ : List α)
+    (hd : (elems.filter fun x => (f x).isSome).length ≤ 1)
+    (h₁ : o₁.Perm elems) (h₂ : o₂.Perm elems) : o₁.findSome? f = o₂.findSome? f := by
+  rw [findSome?_filter f o₁, findSome?_filter f o₂]
+  have e₁ := perm_length_le_one (h₁.filter fun x => (f x).isSome) hd
+  have e₂ := perm_length_le_one (h₂.filter fun x => (f x).isSome) hd
+  rw [e₁, e₂]
+
+
+/-! ## Worklist closure -/
+
+theorem removeAt_mem {α : Type} : ∀ (i : Nat) (l : List α) (y : α) (r : List α),
+    removeAt i l = some (y, r) → ∀ z, z ∈ l ↔ z = y ∨ z ∈ r := by
+  intro i l
+  induction l generalizing i with
+  | nil => intro y r h; simp [removeAt] at h
+  | cons x l ih =>
+    intro y r h z
+    cases i with
+    | zero =>
+      simp [removeAt] at h
+      obtain ⟨h1, h2⟩ := h
+      subst h1; subst h2; simp
+    | succ i =>
+      simp only [removeAt, Option.map_eq_some_iff] at h
+      obtain ⟨⟨y', r'⟩, hr, heq⟩ := h
+      simp at heq
+      obtain ⟨h1, h2⟩ := heq
+      subst h1; subst h2
+      have := ih i y' r' hr z
+      simp only [List.mem_cons, this]
+      constructor
+      · rintro (h | h | h)
+        · exact Or.inr (Or.inl h)
+        · exact Or.inl h
+        · exact Or.inr (Or.inr h)
+      · rintro (h | h | h)
+        · exact Or.inr (Or.inl h)
+        · exact Or.inl h
+        · exact Or.inr (Or.inr h)
+
+theorem removeAt_none {α : Type} (i : Nat) (l : List α) (h : removeAt (i % l.length) l = none) : l = [] := by
+  cases l with
+  | nil => rfl
+  | cons x l =>
+    exfalso
+    have hlt : i % (x :: l).length < (x :: l).length := Nat.mod_lt _ (by simp)
+    generalize i % (x :: l).length = k at h hlt
+    clear i
+    induction k generalizing x l with
+    | zero => simp [removeAt] at h
+    | succ k ih =>
+      cases l with
+      | nil => simp at hlt
+      | cons y l =>
+        simp only [removeAt, Option.map_eq_none_iff] at h
+        exact ih y l h (by simp at hlt ⊢; omega)
+
+/-- Reachability from `start` along `succ` (reflexive, transitive). -/
+inductive Reach (succ : Nat → List Nat) (start : Nat) : Nat → Prop
+  | refl : Reach succ start start
+  | step {x y : Nat} : Reach succ start x → y ∈ succ x → Reach succ start y
+
+/-- The invariant of the worklist loop. -/
+structure ClosureInv (succ : Nat → List Nat) (start : Nat) (st : List Nat × List Nat × List Nat) : Prop where
+  reach : ∀ x, x ∈ st.1 ∨ x ∈ st.2.1 → Reach succ start x
+  start_in : start ∈ st.1 ∨ start ∈ st.2.1
+  closed : ∀ x ∈ st.1, ∀ y ∈ succ x, y ∈ st.1 ∨ y ∈ st.2.1
+  result : ∀ y, y ∈ st.2.2 ↔ ∃ x ∈ st.1, y ∈ succ x
+
+theorem closureStep_inv (succ : Nat → List Nat) (start c : Nat) (st : List Nat × List Nat × List Nat)
+    (hi : ClosureInv succ start st) : ClosureInv succ start (closureStep succ c st) := by
+  obtain ⟨seen, pending, result⟩ := st
+  unfold closureStep
+  cases hrm : removeAt (c % pending.length) pending with
+  | none => simpa [hrm] using hi
+  | some yr =>
+    obtain ⟨x, pending'⟩ := yr
+    have hmem := removeAt_mem _ _ _ _ hrm
+    simp only [hrm]
+    by_cases hs : seen.contains x = true
+    · simp only [hs, if_true]
+      have hxs : x ∈ seen := by simpa using hs
+      refine ⟨?_, ?_, ?_, hi.result⟩
+      · intro z hz
+        cases hz with
+        | inl h => exact hi.reach z (Or.inl h)
+        | inr h => exact hi.reach z (Or.inr ((hmem z).mpr (Or.inr h)))
+      · cases hi.start_in with
+        | inl h => exact Or.inl h
+        | inr h =>
+          cases (hmem start).mp h with
+          | inl h' => exact Or.inl (h' ▸ hxs)
+          | inr h' => exact Or.inr h'
+      · intro z hz y hy
+        cases hi.closed z hz y hy with
+        | inl h => exact Or.inl h
+        | inr h =>
+          cases (hmem y).mp h with
+          | inl h' => exact Or.inl (h' ▸ hxs)
+          | inr h' => exact Or.inr h'
+    · have hs' : seen.contains x = false := by simpa using hs
+      simp only [hs', Bool.false_eq_true, if_false]
+      have hxr : Reach succ start x := hi.reach x (Or.inr ((hmem x).mpr (Or.inl rfl)))
+      have hnew : ∀ y, y ∈ pending' ++ (succ x).filter (fun y => !pending'.contains y) ↔ y ∈ pending' ∨ y ∈ succ x := by
+        intro y
+        simp only [List.mem_append, List.mem_filter]
+        by_cases hp : y ∈ pending'
+        · simp [hp]
+        · simp [hp]
+      refine ⟨?_, ?_, ?_, ?_⟩
+      · intro z hz
+        cases hz with
+        | inl h =>
+          cases List.mem_cons.mp h with
+          | inl h' => exact h' ▸ hxr
+          | inr h' => exact hi.reach z (Or.inl h')
+        | inr h =>
+          cases (hnew z).mp h with
+          | inl h' => exact hi.reach z (Or.inr ((hmem z).mpr (Or.inr h')))
+          | inr h' => exact Reach.step hxr h'
+      · cases hi.start_in with
+        | inl h => exact Or.inl (List.mem_cons_of_mem _ h)
+        | inr h =>
+          cases (hmem start).mp h with
+          | inl h' => exact Or.inl (h' ▸ List.mem_cons_self)
+          | inr h' => exact Or.inr ((hnew start).mpr (Or.inl h'))
+      · intro z hz y hy
+        cases List.mem_cons.mp hz with
+        | inl h => exact Or.inr ((hnew y).mpr (Or.inr (h ▸ hy)))
+        | inr h =>
+          cases hi.closed z h y hy with
+          | inl h' => exact Or.inl (List.mem_cons_of_mem _ h')
+          | inr h' =>
+            cases (hmem y).mp h' with
+            | inl h'' => exact Or.inl (h'' ▸ List.mem_cons_self)
+            | inr h'' => exact Or.inr ((hnew y).mpr (Or.inl h''))
+      · intro y
+        simp only [List.mem_append, List.mem_filter, List.mem_cons]
+        constructor
+        · rintro (h | ⟨h, _⟩)
+          · obtain ⟨z, hz, hy⟩ := (hi.result y).mp h
+            exact ⟨z, Or.inr hz, hy⟩
+          · exact ⟨x, Or.inl rfl, h⟩
+        · rintro ⟨z, hz | hz, hy⟩
+          · subst hz
+            by_cases hr : y ∈ result
+            · exact Or.inl hr
+            · exact Or.inr ⟨hy, by simpa using hr⟩
+          · exact Or.inl ((hi.result y).mpr ⟨z, hz, hy⟩)
+
+theorem closureRun_inv (succ : Nat → List Nat) (start : Nat) (choices : List Nat) :
+    ClosureInv succ start (closureRun succ start choices) := by
+  unfold closureRun
+  have h0 : ClosureInv succ start ([], [start], []) :=
+    ⟨by intro x hx; simp at hx; exact hx ▸ Reach.refl, by simp, by simp, by simp⟩
+  generalize ([], [start], []) = st at h0
+  induction choices generalizing st with
+  | nil => exact h0
+  | cons c cs ih => exact ih _ (closureStep_inv succ start c st h0)
+
+/-- When the worklist has run empty, the result is the union of `succ x` over everything reachable
+from the start — whatever elements `pop()` chose. -/
+theorem closure_result (succ : Nat → List Nat) (start : Nat) (choices : List Nat)
+    (hdone : (closureRun succ start choices).2.1 = []) (y : Nat) :
+    y ∈ (closureRun succ start choices).2.2 ↔ ∃ x, Reach succ start x ∧ y ∈ succ x := by
+  have hi := closureRun_inv succ start choices
+  rw [hi.result y]
+  have hstart : start ∈ (closureRun succ start choices).1 := by
+    cases hi.start_in with
+    | inl h => exact h
+    | inr h => rw [hdone] at h; cases h
+  have hall : ∀ x, Reach succ start x → x ∈ (closureRun succ start choices).1 := by
+    intro x hx
+    induction hx with
+    | refl => exact hstart
+    | step _ hy ih =>
+      cases hi.closed _ ih _ hy with
+      | inl h => exact h
+      | inr h => rw [hdone] at h; cases h
+  constructor
+  · rintro ⟨x, hx, hy⟩; exact ⟨x, hi.reach x (Or.inl hx), hy⟩
+  · rintro ⟨x, hx, hy⟩; exact ⟨x, hall x hx, hy⟩
+
+
+/-! ## Memo tables -/
+section memo
+variable {Q κ ν : Type} [BEq κ] [LawfulBEq κ]
+variable (key : Q → κ) (hashable : κ → Bool) (f fallback : Q → Option ν)
+
+/-- The uncached function a memoised lookup stands for. -/
+def memoSpec (q : Q) : Option ν := if hashable (key q) then f q else fallback q
+
+/-- Every entry of the table is what the computation returns for any query with that key. -/
+def MemoInv (tbl : List (κ × ν)) : Prop := ∀ q v, tbl.lookup (key q) = some v → f q = some v
+
+/-- The cache key determines the result (arg_spec.py keys `known_argspecs` by the object although
+`impl` / `is_asynq` are also inputs of the computation). -/
+def KeyDetermines : Prop := ∀ q q', key q = key q' → f q = f q'
+
+theorem memoStep_spec (hk : KeyDetermines key f) (tbl : List (κ × ν)) (hi : MemoInv key f tbl) (q : Q) :
+    (memoStep key hashable f fallback tbl q).1 = memoSpec key hashable f fallback q ∧
+      MemoInv key f (memoStep key hashable f fallback tbl q).2.1 := by
+  unfold memoStep memoSpec
+  by_cases hh : hashable (key q) = true
+  · simp only [hh, Bool.not_true, Bool.false_eq_true, if_false, if_true]
+    cases hl : tbl.lookup (key q) with
+    | some v => exact ⟨(hi q v hl).symm, hi⟩
+    | none =>
+      cases hf : f q with
+      | none => exact ⟨rfl, hi⟩
+      | some v =>
+        refine ⟨rfl, ?_⟩
+        intro q' v' hl'
+        by_cases hkk : key q' = key q
+        · rw [hkk] at hl'
+          simp [List.lookup] at hl'
+          rw [hk q' q hkk, hf, hl']
+        · have : (key q' == key q) = false := by simpa using hkk
+          simp [List.lookup, this] at hl'
+          exact hi q' v' hl'
+  · have hh' : hashable (key q) = false := by simpa using hh
+    simp only [hh', Bool.not_false, if_true, Bool.false_eq_true, if_false]
+    exact ⟨trivial, hi⟩
+
+theorem memoRun_inv (hk : KeyDetermines key f) : ∀ (h : List Q) (tbl : List (κ × ν)),
+    MemoInv key f tbl → MemoInv key f (memoRun key hashable f fallback tbl h) := by
+  intro h
+  induction h with
+  | nil => intro tbl hi; exact hi
+  | cons q h ih =>
+    intro tbl hi
+    simp only [memoRun, List.foldl_cons]
+    exact ih _ (memoStep_spec key hashable f fallback hk tbl hi q).2
+
+end memo
+
+def atomSem (W : World) (ex : Bool) (n : Nat) : Atom → Bool
+  | .const b => b
+  | .anyOk => !ex
+  | .sub p a v => sem W ex n p a v
+
+theorem sem_succ (W : World) (ex : Bool) (n : Nat) (p : Pid) (a : Nat) (v : Vid) :
+    sem W ex (n + 1) p a v = (W.req p a v).all fun m => m.all (atomSem W ex n) := by
+  simp only [sem]
+  rfl
+
+theorem lookup_mem {α β : Type} [BEq α] [LawfulBEq α] (l : List (α × β)) (k : α) (v : β)
+    (h : l.lookup k = some v) : (k, v) ∈ l := by
+  induction l with
+  | nil => simp at h
+  | cons x l ih =>
+    obtain ⟨k', v'⟩ := x
+    by_cases hk : k = k'
+    · subst hk; simp [List.lookup] at h; subst h; simp
+    · have : (k == k') = false := by simpa using hk
+      simp [List.lookup, this] at h
+      exact List.mem_cons_of_mem _ (ih h)
+
+/-- An atom of a member of a pair of rank `r`: nested checks use variant 0 and a smaller rank. -/
+def GoodAtom (W : World) (rk : Rank) (r : Nat) (at' : Atom) : Prop :=
+  ∀ p' a' v', at' = .sub p' a' v' → a' = 0 ∧ rk p' (W.tobj v') < r
+
+theorem req_good (W : World) (rk : Rank) (hr : rankOK W rk = true) (hz : worldNoArgs W = true)
+    (p : Pid) (v : Vid) :
+    ∀ m ∈ W.req p 0 v, ∀ at' ∈ m, GoodAtom W rk (rk p (W.tobj v)) at' := by
+  intro m hm at' hat p' a' v' heq
+  unfold World.req at hm
+  cases hl : W.reqs.lookup (p, 0, v) with
+  | none =>
+    simp [hl] at hm
+    subst hm
+    simp at hat
+    subst hat
+    cases heq
+  | some ms =>
+    simp [hl] at hm
+    have hmem := lookup_mem _ _ _ hl
+    subst heq
+    constructor
+    · have := (List.all_eq_true.mp hz) _ hmem
+      simp only [Bool.and_eq_true] at this
+      have h2 := (List.all_eq_true.mp ((List.all_eq_true.mp this.2) m hm)) _ hat
+      simpa using h2
+    · have := (List.all_eq_true.mp hr) _ hmem
+      have h2 := (List.all_eq_true.mp ((List.all_eq_true.mp this) m hm)) _ hat
+      simpa using h2
+
+
+section proto
+variable (W : World) (rk : Rank) (ex : Bool)
+variable (hr : rankOK W rk = true) (hz : worldNoArgs W = true)
+
+theorem all_congr_mem {α : Type} (l : List α) (f g : α → Bool) (h : ∀ x ∈ l, f x = g x) :
+    l.all f = l.all g := by
+  induction l with
+  | nil => rfl
+  | cons x l ih =>
+    simp only [List.all_cons]
+    rw [h x (by simp), ih (fun y hy => h y (List.mem_cons_of_mem _ hy))]
+
+include hr hz in
+/-- Once the fuel exceeds the rank of a pair, `sem` no longer depends on it. -/
+theorem sem_stable : ∀ (n m : Nat) (p : Pid) (v : Vid), rk p (W.tobj v) < n → rk p (W.tobj v) < m →
+    sem W ex n p 0 v = sem W ex m p 0 v := by
+  intro n
+  induction n with
+  | zero => intro m p v h; omega
+  | succ n ih =>
+    intro m p v hn hm
+    cases m with
+    | zero => omega
+    | succ m =>
+      rw [sem_succ, sem_succ]
+      apply all_congr_mem
+      intro mem hmem
+      apply all_congr_mem
+      intro at' hat
+      have hg := req_good W rk hr hz p v mem hmem at' hat
+      cases at' with
+      | const b => rfl
+      | anyOk => rfl
+      | sub p' a' v' =>
+        obtain ⟨ha, hlt⟩ := hg p' a' v' rfl
+        subst ha
+        simp only [atomSem]
+        exact ih m p' v' (by omega) (by omega)
+
+/-- Every cached pair is compatible in the structural sense (mode `ex`). -/
+def CacheOK (st : St) : Prop :=
+  ∀ p v, (p, v) ∈ st.cache → sem W ex (rk p (W.tobj v) + 1) p 0 v = true
+
+/-- Every assumption on the stack has rank at least `r`. -/
+def StackGe (st : St) (r : Nat) : Prop := ∀ e ∈ st.stack, r ≤ rk e.1 e.2
+
+/-- What the nested `can_assign` must satisfy for pairs of rank below `r`. -/
+def RecOK (rec : St → Pid → Nat → Vid → Bool × St) (n r : Nat) : Prop :=
+  ∀ st p' v', rk p' (W.tobj v') < r → CacheOK W rk ex st → StackGe rk st r →
+    (rec st p' 0 v').1 = sem W ex n p' 0 v' ∧ CacheOK W rk ex (rec st p' 0 v').2 ∧
+      (rec st p' 0 v').2.stack = st.stack
+
+theorem evalAll_spec (rec : St → Pid → Nat → Vid → Bool × St) (n r : Nat)
+    (hrec : RecOK W rk ex rec n r) :
+    ∀ (as : List Atom) (st : St), (∀ at' ∈ as, GoodAtom W rk r at') → CacheOK W rk ex st →
+      StackGe rk st r →
+      (evalAll rec ex st as).1 = as.all (atomSem W ex n) ∧ CacheOK W rk ex (evalAll rec ex st as).2 ∧
+        (evalAll rec ex st as).2.stack = st.stack := by
+  intro as
+  induction as with
+  | nil => intro st _ hc _; exact ⟨rfl, hc, rfl⟩
+  | cons a as ih =>
+    intro st hg hc hs
+    have hga := hg a (by simp)
+    have hrest : ∀ at' ∈ as, GoodAtom W rk r at' := fun x hx => hg x (List.mem_cons_of_mem _ hx)
+    -- the first atom
+    have h1 : (evalAtom rec ex st a).1 = atomSem W ex n a ∧ CacheOK W rk ex (evalAtom rec ex st a).2 ∧
+        (evalAtom rec ex st a).2.stack = st.stack := by
+      cases a with
+      | const b => exact ⟨rfl, hc, rfl⟩
+      | anyOk => exact ⟨rfl, hc, rfl⟩
+      | sub p' a' v' =>
+        obtain ⟨ha, hlt⟩ := hga p' a' v' rfl
+        subst ha
+        exact hrec st p' v' hlt hc hs
+    obtain ⟨e1, c1, s1⟩ := h1
+    simp only [evalAll, List.all_cons]
+    by_cases hb : (evalAtom rec ex st a).1 = true
+    · have hs' : StackGe rk (evalAtom rec ex st a).2 r := by
+        intro e he; rw [s1] at he; exact hs e he
+      obtain ⟨e2, c2, s2⟩ := ih (evalAtom rec ex st a).2 hrest c1 hs'
+      simp only [hb, if_true]
+      refine ⟨?_, c2, by rw [s2, s1]⟩
+      rw [e2, ← e1, hb]; simp
+    · have hb' : (evalAtom rec ex st a).1 = false := by simpa using hb
+      simp only [hb', Bool.false_eq_true, if_false]
+      refine ⟨?_, c1, s1⟩
+      rw [← e1, hb']; simp
+
+theorem evalMembers_spec (rec : St → Pid → Nat → Vid → Bool × St) (n r : Nat)
+    (hrec : RecOK W rk ex rec n r) :
+    ∀ (ms : List (List Atom)) (st : St), (∀ m ∈ ms, ∀ at' ∈ m, GoodAtom W rk r at') →
+      CacheOK W rk ex st → StackGe rk st r →
+      (evalMembers rec ex st ms).1 = (ms.all fun m => m.all (atomSem W ex n)) ∧
+        CacheOK W rk ex (evalMembers rec ex st ms).2 ∧ (evalMembers rec ex st ms).2.stack = st.stack := by
+  intro ms
+  induction ms with
+  | nil => intro st _ hc _; exact ⟨rfl, hc, rfl⟩
+  | cons m ms ih =>
+    intro st hg hc hs
+    obtain ⟨e1, c1, s1⟩ := evalAll_spec W rk ex rec n r hrec m st (hg m (by simp)) hc hs
+    have hrest : ∀ m' ∈ ms, ∀ at' ∈ m', GoodAtom W rk r at' :=
+      fun x hx => hg x (List.mem_cons_of_mem _ hx)
+    simp only [evalMembers, List.all_cons]
+    by_cases hb : (evalAll rec ex st m).1 = true
+    · have hs' : StackGe rk (evalAll rec ex st m).2 r := by
+        intro e he; rw [s1] at he; exact hs e he
+      obtain ⟨e2, c2, s2⟩ := ih (evalAll rec ex st m).2 hrest c1 hs'
+      simp only [hb, if_true]
+      refine ⟨?_, c2, by rw [s2, s1]⟩
+      rw [e2, ← e1, hb]; simp
+    · have hb' : (evalAll rec ex st m).1 = false := by simpa using hb
+      simp only [hb', Bool.false_eq_true, if_false]
+      refine ⟨?_, c1, s1⟩
+      rw [← e1, hb']; simp
+
+
+include hr hz in
+/-- The protocol check on a pair whose rank the fuel exceeds, from a state whose cache is valid and
+whose assumptions all have larger rank: the answer is the structural one, the cache stays valid, the
+stack is restored. -/
+theorem check_spec : ∀ (n : Nat) (st : St) (p : Pid) (v : Vid), rk p (W.tobj v) < n →
+    CacheOK W rk ex st → (∀ e ∈ st.stack, rk p (W.tobj v) < rk e.1 e.2) →
+    (check W ex n st p 0 v).1 = sem W ex n p 0 v ∧ CacheOK W rk ex (check W ex n st p 0 v).2 ∧
+      (check W ex n st p 0 v).2.stack = st.stack := by
+  intro n
+  induction n with
+  | zero => intro st p v h; omega
+  | succ n ih =>
+    intro st p v hn hc hs
+    simp only [check]
+    by_cases hhit : st.cache.contains (p, v) = true
+    · rw [if_pos hhit]
+      refine ⟨?_, hc, rfl⟩
+      have := hc p v (by simpa using hhit)
+      show true = sem W ex (n + 1) p 0 v
+      rw [← this]
+      exact sem_stable W rk ex hr hz (rk p (W.tobj v) + 1) (n + 1) p v (by omega) hn
+    · rw [if_neg hhit]
+      have hguard : st.stack.contains (p, W.tobj v) = false := by
+        cases hgd : st.stack.contains (p, W.tobj v) with
+        | false => rfl
+        | true =>
+          have hmem : (p, W.tobj v) ∈ st.stack := by simpa using hgd
+          have := hs _ hmem
+          simp at this
+      rw [if_neg (by rw [hguard]; exact Bool.false_ne_true)]
+      -- the state with the assumption pushed
+      obtain ⟨st1, hst1⟩ : ∃ st1 : St, st1 = { st with stack := st.stack ++ [(p, W.tobj v)] } := ⟨_, rfl⟩
+      rw [← hst1]
+      have hc1 : CacheOK W rk ex st1 := by rw [hst1]; exact hc
+      have hs1 : StackGe rk st1 (rk p (W.tobj v)) := by
+        intro e he
+        have : e ∈ st.stack ∨ e = (p, W.tobj v) := by simpa [hst1] using he
+        cases this with
+        | inl h => exact Nat.le_of_lt (hs e h)
+        | inr h => subst h; exact Nat.le_refl _
+      have hrec : RecOK W rk ex (check W ex n) n (rk p (W.tobj v)) := by
+        intro st' p' v' hlt hc' hs'
+        exact ih st' p' v' (by omega) hc' (fun e he => Nat.lt_of_lt_of_le hlt (hs' e he))
+      obtain ⟨e1, c1, s1⟩ := evalMembers_spec W rk ex (check W ex n) n _ hrec (W.req p 0 v) st1
+        (req_good W rk hr hz p v) hc1 hs1
+      have hpop : (evalMembers (check W ex n) ex st1 (W.req p 0 v)).2.stack.dropLast = st.stack := by
+        rw [s1, hst1]; simp
+      have hsem : (evalMembers (check W ex n) ex st1 (W.req p 0 v)).1 = sem W ex (n + 1) p 0 v := by
+        rw [e1, sem_succ]
+      by_cases hb : (evalMembers (check W ex n) ex st1 (W.req p 0 v)).1 = true
+      · rw [if_pos hb]
+        refine ⟨by rw [← hsem, hb], ?_, by simpa using hpop⟩
+        intro p2 v2 hmem
+        have : (p2, v2) = (p, v) ∨ (p2, v2) ∈ (evalMembers (check W ex n) ex st1 (W.req p 0 v)).2.cache := by
+          simpa using hmem
+        cases this with
+        | inl h =>
+          cases h
+          rw [sem_stable W rk ex hr hz (rk p (W.tobj v) + 1) (n + 1) p v (by omega) hn, ← hsem, hb]
+        | inr h => exact c1 p2 v2 h
+      · have hb' : (evalMembers (check W ex n) ex st1 (W.req p 0 v)).1 = false := by simpa using hb
+        rw [if_neg hb]
+        refine ⟨by rw [← hsem, hb'], ?_, by simpa using hpop⟩
+        intro p2 v2 hmem
+        exact c1 p2 v2 (by simpa using hmem)
+
+
+include hr hz in
+theorem runHist_inv (fuel : Nat) : ∀ (h : List Query) (st : St), CacheOK W rk ex st → st.stack = [] →
+    (∀ q ∈ h, q.ex = ex ∧ q.a = 0 ∧ rk q.p (W.tobj q.v) < fuel) →
+    CacheOK W rk ex (runHist W fuel st h) ∧ (runHist W fuel st h).stack = [] := by
+  intro h
+  induction h with
+  | nil => intro st hc hs _; exact ⟨hc, hs⟩
+  | cons q h ih =>
+    intro st hc hs hq
+    obtain ⟨he, ha, hf⟩ := hq q (by simp)
+    have hstep := check_spec W rk ex hr hz fuel st q.p q.v hf hc (by rw [hs]; intro e he; cases he)
+    simp only [runHist, List.foldl_cons]
+    rw [he, ha]
+    exact ih _ hstep.2.1 (by rw [hstep.2.2, hs]) (fun q' hq' => hq q' (List.mem_cons_of_mem _ hq'))
+
+end proto
+
+/-- **History independence of the protocol check, partial.** Outside the three exception classes
+(well-founded world w.r.t. `rk`; variant 0 only; one mode) and with enough fuel, the answer to `q`
+after any history `h` is the structural answer `sem`, hence the answer of a fresh checker. -/
+theorem answerAfter_eq_sem (W : World) (rk : Rank) (fuel : Nat) (h : List Query) (q : Query)
+    (h1 : D10_cyclic W rk = false) (h2 : D10_selfArgs W h q = false) (h3 : D10_modeMix h q = false)
+    (h4 : fuelOK W rk fuel (q :: h) = true) :
+    answerAfter W fuel h q = sem W q.ex fuel q.p q.a q.v := by
+  have hr : rankOK W rk = true := by simpa [D10_cyclic] using h1
+  simp only [D10_selfArgs, Bool.or_eq_false_iff, Bool.not_eq_false'] at h2
+  obtain ⟨hqa, hz⟩ := h2
+  have hall : ∀ q' ∈ q :: h, q'.a = 0 := by
+    intro q' hq'
+    have := (List.any_eq_false.mp hqa) q' hq'
+    simpa using this
+  have hmode : ∀ q' ∈ h, q'.ex = q.ex := by
+    intro q' hq'
+    have := (List.any_eq_false.mp h3) q' hq'
+    simpa using this
+  have hfuel : ∀ q' ∈ q :: h, rk q'.p (W.tobj q'.v) < fuel := by
+    intro q' hq'
+    have := (List.all_eq_true.mp h4) q' hq'
+    simpa using this
+  have hinv := runHist_inv W rk q.ex hr hz fuel h {} (by intro p v hm; cases hm) rfl
+    (fun q' hq' => ⟨hmode q' hq', hall q' (List.mem_cons_of_mem _ hq'), hfuel q' (List.mem_cons_of_mem _ hq')⟩)
+  have hq0 : q.a = 0 := hall q (by simp)
+  have hstep := check_spec W rk q.ex hr hz fuel (runHist W fuel {} h) q.p q.v (hfuel q (by simp)) hinv.1
+    (by rw [hinv.2]; intro e he; cases he)
+  unfold answerAfter
+  rw [hq0]
+  exact hstep.1
+
+
 end Pya.C10
